@@ -141,6 +141,13 @@ pub fn check(c: &Case, rec: &mut Rec) -> CheckResult {
 /// Enumerate every fault position x kind for one sequence.
 fn enumerate(pairs: &Pairs, set: bool, cap: usize, rec: &mut Rec) -> Result<(), (Value, Fail)> {
     let (w, _) = measure(pairs, set, cap).map_err(|f| (json!({"pairs": pairs_json(pairs)}), f))?;
+    // the fault-free run of the same sequence exercises the success clause:
+    // finish may report Ok only with the complete file accepted *and flushed
+    // after the last write*
+    {
+        let c = Case { pairs: pairs.clone(), set, fail_write: Some(w + 1_000_000), kind: FaultKind::Other, cap };
+        crate::engine::guarded(|| check(&c, rec)).map_err(|f| (c.to_json(), f))?;
+    }
     for kind in FaultKind::ALL {
         for pos in 0..=w {
             let fail_write = if pos == w { None } else { Some(pos) };
@@ -188,7 +195,7 @@ pub fn run(e: &Engine) {
             enumerate(&pairs, *set, *cap, rec).map_err(|(_, f)| f)
         },
     );
-    for cls in ["fault_in_new", "fault_in_insert", "fault_in_finish", "fault_in_flush", "kind:Ok(0)", "kind:WouldBlock"] {
+    for cls in ["fault_in_new", "fault_in_insert", "fault_in_finish", "fault_in_flush", "kind:Ok(0)", "kind:WouldBlock", "no_fault_reached"] {
         e.require_class(cls, 1);
     }
 }
